@@ -117,8 +117,9 @@ CHECKS.update({
             "DESIGN.md 3.7, 5/C10"),
     "C11": ("Lifecycle.tla, Trace_Lifecycle.tla",
             "TLC model check (NoStaleWeights, FrozenNoGrad) + executed training histories + TLC trace validation",
-            "Histories of optimizer steps (real backward + update) interleaved with forwards and freeze: which leaves receive gradients (frozen weights and scales never), and after every update the next forward of each "
-            "quantized module equals its float twin on the *current* dequantized weights.",
+            "Histories of optimizer steps (real backward + update applied in place under no_grad, through .data, or by copy_ - a parameter of the spec action) interleaved with graph-less forwards and freeze: which leaves "
+            "receive gradients (frozen weights and scales never), and after every update the next forward of each quantized module equals its float twin on the *current* float weights, quantized by the harness "
+            "independently of anything the module may have kept.",
             "The numeric equality of the gradients with the float twin's autograd is checked by the gradient driver of this check (rank 2-4, contiguous and permuted upstream gradients).",
             "DESIGN.md 3.7, 5/C11"),
     "C12": ("Lifecycle.tla, Trace_Lifecycle.tla, Exact.tla",
